@@ -24,7 +24,7 @@ META = dict(
     stubs=['yang_convert_utils.load_data not called (harnesses call the converter functions, not yang_to_legacy)'],
 )
 
-FUNCS = ['ns_prefix_only', 'degree_roundtrip', 'design_band_roundtrip', 'loss_coef_roundtrip', 'delta_power_range_roundtrip',
+FUNCS = ['ns_prefix_only', 'degree_roundtrip', 'design_band_roundtrip', 'two_roadms_roundtrip', 'loss_coef_roundtrip', 'delta_power_range_roundtrip',
          'nf_coef_roundtrip', 'nf_coef_yang_order_irrelevant', 'nf_fit_coef_roundtrip', 'raman_coef_roundtrip',
          'none_empty_roundtrip', 'int_precision_dispatch', 'roadm_default_variety', 'transceiver_aliases']
 
@@ -101,6 +101,7 @@ SAMPLES = {
     'ns_prefix_only': "ns_prefix_only('ab:Edfa')",
     'degree_roundtrip': "degree_roundtrip({'e': 1}, {}, {'w': 2}, 3)",
     'design_band_roundtrip': "design_band_roundtrip({'e': [1, 5]}, 3)",
+    'two_roadms_roundtrip': "two_roadms_roundtrip(0, 1, 5, 0, True, True, 0, 2)",
     'loss_coef_roundtrip': "loss_coef_roundtrip([1, 2], [3, 4], 5)",
     'delta_power_range_roundtrip': "delta_power_range_roundtrip([(0, 1, 2)], [(3, 4, 5)])",
     'nf_coef_roundtrip': "nf_coef_roundtrip([[1, 2, 3]])",
